@@ -56,6 +56,7 @@ class Recorder:
         self.all_post_steps = []
         self.last_carry = 0
         self.default = None
+        self.defect_check = True
 
     # ---- projections -----------------------------------------------------
     def hid(self, x):
@@ -197,10 +198,50 @@ def make_cc_recorder(order, name):
                 hn=r.hlist(L.u[1:]),
                 ht=r.hlist(L.tau) if L.tau[0] is not None else 0,
             )
+            if name == 'Rec199' and r.script is None and r.defect_check:
+                d[name]['resval_ok'] = defect_matches(L)
 
     _Rec.__name__ = name
     _Rec.__qualname__ = name
     return _Rec
+
+
+def defect_matches(L):
+    """independent recomputation of the collocation defect u0 + dt*Q*F(U) + tau - U from the node VALUES
+    (the right-hand side is re-evaluated), in the configured residual type, compared with level.status.residual"""
+    P = L.prob
+    coll = L.sweep.coll
+    M = coll.num_nodes
+    counters = {k: v.niter for k, v in P.work_counters.items()}
+    try:
+        f = [P.eval_f(L.u[m], L.time + L.dt * coll.nodes[m - 1]) for m in range(1, M + 1)]
+
+        def total(fm):
+            if hasattr(fm, 'impl') and hasattr(fm, 'expl'):
+                return fm.impl + fm.expl
+            if hasattr(fm, 'comp1') and hasattr(fm, 'comp2'):
+                return fm.comp1 + fm.comp2
+            return fm
+
+        norms = []
+        for m in range(M):
+            r_ = P.dtype_u(L.u[0])
+            for j in range(M):
+                r_ += L.dt * coll.Qmat[m + 1, j + 1] * total(f[j])
+            r_ -= L.u[m + 1]
+            if L.tau[m] is not None:
+                r_ += L.tau[m]
+            norms.append(abs(r_))
+    finally:
+        for k, v in counters.items():
+            P.work_counters[k].niter = v
+    rt = L.params.residual_type
+    val = {'full_abs': max(norms), 'last_abs': norms[-1], 'full_rel': max(norms) / abs(L.u[0]),
+           'last_rel': norms[-1] / abs(L.u[0])}.get(rt)
+    if val is None:
+        return False
+    got = L.status.residual
+    return bool(abs(got - val) <= 1e-8 * max(abs(val), abs(got)) + 1e-13)
 
 
 Rec94 = make_cc_recorder(94, 'Rec94')  # after estimators / adaptivity / limiters, before BasicRestarting (95)
@@ -347,7 +388,7 @@ class TracedController(controller_nonMPI):
                 b = b or a
                 if b is None:  # an exception ended the stage before this step was looked at
                     orc.append(dict(res=False, rs=False, dtn=0, fd=False, fc=False, done201=False, fresh=True,
-                                    same_res=True, missing=True))
+                                    same_res=True, resval_ok=True, missing=True))
                     continue
                 res = b['res']
                 stamp = r.res_stamp.get(id(self.MS[p].levels[0]))
@@ -359,6 +400,7 @@ class TracedController(controller_nonMPI):
                     done201=bool(z['done']) if z else False,
                     fresh=bool(stamp is not None and stamp[:3] == (b['h0'], b['hn'], b['ht'])),
                     same_res=bool(stamp is not None and stamp[3] == res),
+                    resval_ok=bool(b.get('resval_ok', True)),
                     missing=z is None,
                 ))
         line = dict(k=kind, sg=sg, running=running, nact=nact, err=err or 'none', orc=orc, evs=r.events,
